@@ -252,8 +252,50 @@ def tcp_scenarios(ctx, n):
                    "tcp_sample": {"ops": cases[0]["ops"][:8], "observed": (results[0] or [])[:8] if results else None}}
 
 
+def reset_while_stalled(ctx):
+    """virtual time, in-memory links: POST /reset (and a reset followed by a second reset) arriving while the stage of a live connection is
+    stuck for 6.5-15 s handing data to a receiver that does not read: once the request has returned no toxic is listed, and none is
+    applied to that connection any more - what is sent afterwards passes at once"""
+    from . import links as L
+    rng = C.Rng(ctx.seed).fork("C17stalled")
+    cases = []
+    for i in range(6 if ctx.tier == "quick" else 120):
+        slow = rng.choice([6500, 9000, 15000]) * L.MS
+        D = rng.choice([800, 1000])
+        chain = [L.tx("latency", name="l", latency=D, jitter=0)] + ([L.tx("noop", name="n")] if i % 2 else [])
+        A = (1 + D) * L.MS + slow
+        R = A - slow + rng.range(100, 900) * L.MS + rng.range(1, 999)
+        t3 = A + rng.range(2000, 4000) * L.MS + 13
+        ops = [{"at": R, "op": "reset"}] + ([{"at": t3 - 900 * L.MS, "op": "reset"}] if i % 3 == 0 else [])      # a second reset once the first has returned
+        src = [{"at": 1 * L.MS, "n": 100}, {"at": 2 * L.MS, "n": 100}, {"at": t3, "n": 300}, {"at": t3 + 700 * L.MS, "n": 5},
+               {"at": t3 + 20000 * L.MS, "close": True}]
+        cases.append({"dir": rng.choice(["upstream", "downstream"]), "chain": chain, "src": src, "ops": ops, "sink_delay": [slow, 0, 0, 0, 0, 0],
+                      "horizon": 3600 * 1000 * L.MS, "seed": 17000 + i, "t3": t3})
+    res = L.run_impl(ctx, cases, "c17_stalled")
+    fails = []
+    for c, r in zip(cases, res):
+        rp = {"kind": "failing-input", "link": True, "case": c, "observed": r}
+        if r and r.get("hang"):
+            continue                      # the harness could not drive the case (a request waiting for a lock is not a virtual-time wait): inconclusive
+        if not r or "crash" in r:
+            fails.append(("crash", "the process crashed when /reset arrived while a stage was stalled: " + ((r or {}).get("crash", "")[-200:]), rp))
+            continue
+        late = [w for w in (r.get("writes") or []) if w["t"] >= c["t3"]]
+        sent = sum(e.get("n", 0) for e in c["src"])
+        if r.get("total") != sent or not r.get("prefix_ok"):
+            fails.append(("reset", "a reset that arrived while the connection's stage was stalled towards its receiver lost or damaged data (%s of %d bytes)" % (r.get("total"), sent), rp))
+        elif not late or late[0]["t"] != c["t3"]:
+            fails.append(("reset", "POST /reset arrived while the connection's stage was stalled towards its receiver and returned; no toxic is listed any more, yet data sent "
+                                   "at %d ns on that connection was forwarded %s ns later (the removed latency toxic is still applied to it)"
+                          % (c["t3"], (late[0]["t"] - c["t3"]) if late else "never"), rp))
+    return fails, {"reset_while_stalled_scripts": len(cases), "reset_while_stalled_failures": len(fails)}
+
+
 def run(ctx):
     tcp_fail, tcp_cov = T.stable(lambda: tcp_scenarios(ctx, 24 if ctx.tier == "quick" else 400))
+    st_fail, st_cov = reset_while_stalled(ctx)
+    tcp_fail = list(tcp_fail) + st_fail
+    tcp_cov.update(st_cov)
     orig_finish = C.Verdict.finish
 
     def finish(self):
